@@ -191,6 +191,21 @@ pub fn observe(inst: &Value, modes: &[String], ctx: &mut Ctx, seed: u64) -> Valu
     if has("tap") {
         obs["tap"] = tap_check(&ga, &iq, &args, &raw);
     }
+
+    if has("trace") {
+        // binding B: event traces of Tap(Batching(GA)) under the instance's `tpolicies` (default: the unbatched policy n1)
+        let max_rows = modeval("trace", ROW_LIMIT);
+        let mut pols: Vec<(Policy, (bool, usize))> = vec![];
+        if let Some(ps) = inst["tpolicies"].as_array() { for p in ps { pols.push((parse_policy(p["p"].as_str().unwrap_or("")), { let d = parse_policy(p["d"].as_str().unwrap_or("n1")); d.first().cloned().unwrap_or((false, 1)) })); } }
+        if pols.is_empty() { pols.push((vec![], (false, 1))); }
+        let mut out = vec![];
+        for (pol, dflt) in pols {
+            let mut t = crate::tracex::trace_run(&ga, &iq, &args, &pol, dflt, max_rows);
+            t["policy"] = json!(policy_str(&pol)); t["default"] = json!(policy_str(&vec![dflt]));
+            out.push(t);
+        }
+        obs["trace"] = json!(out);
+    }
     obs
 }
 
